@@ -333,32 +333,48 @@ func checkCase(c Case) error {
 	if err != nil {
 		return fmt.Errorf("the library does not parse its own signature: %v", err)
 	}
-	if !p.OID.Equal(oid) {
-		return fmt.Errorf("own parser: content type %v, want %v", p.OID, oid)
-	}
-	if detached {
-		if len(p.ContentInfo) != 0 {
-			return fmt.Errorf("own parser: %d content bytes for a detached signature", len(p.ContentInfo))
+	// what the parser recovered has to be the same before and after the object has been asked to verify
+	recovered := func(when string) error {
+		if !p.OID.Equal(oid) {
+			return fmt.Errorf("own parser (%s): content type %v, want %v", when, p.OID, oid)
 		}
-	} else {
-		el, err := der.ParseOne(p.ContentInfo, der.Options{})
-		if err != nil || !bytes.Equal(el.RawValue(), content) {
-			return fmt.Errorf("own parser: content is not the supplied content")
+		if detached {
+			if len(p.ContentInfo) != 0 {
+				return fmt.Errorf("own parser (%s): %d content bytes for a detached signature", when, len(p.ContentInfo))
+			}
+		} else {
+			el, err := der.ParseOne(p.ContentInfo, der.Options{})
+			if err != nil || !bytes.Equal(el.RawValue(), content) {
+				return fmt.Errorf("own parser (%s): content is not the supplied content", when)
+			}
 		}
+		if len(p.Certs) != 1 || !bytes.Equal(p.Certs[0].Raw, id.Cert.Raw) {
+			return fmt.Errorf("own parser (%s): certificate not recovered", when)
+		}
+		if len(p.SignerInfo) != 1 || p.SignerInfo[0].AuthenticatedAttributes == nil {
+			return fmt.Errorf("own parser (%s): signer / attributes not recovered", when)
+		}
+		at := p.SignerInfo[0].AuthenticatedAttributes
+		want := sha256.Sum256(content)
+		if !at.ContentType.Equal(oid) || !bytes.Equal(at.MessageDigest, want[:]) {
+			return fmt.Errorf("own parser (%s): attributes (contentType %v, messageDigest %x) differ from (%v, %x)", when, at.ContentType, at.MessageDigest, oid, want)
+		}
+		return nil
 	}
-	if len(p.Certs) != 1 || !bytes.Equal(p.Certs[0].Raw, id.Cert.Raw) {
-		return fmt.Errorf("own parser: certificate not recovered")
-	}
-	if len(p.SignerInfo) != 1 || p.SignerInfo[0].AuthenticatedAttributes == nil {
-		return fmt.Errorf("own parser: signer / attributes not recovered")
-	}
-	at := p.SignerInfo[0].AuthenticatedAttributes
-	want := sha256.Sum256(content)
-	if !at.ContentType.Equal(oid) || !bytes.Equal(at.MessageDigest, want[:]) {
-		return fmt.Errorf("own parser: attributes (contentType %v, messageDigest %x) differ from (%v, %x)", at.ContentType, at.MessageDigest, oid, want)
+	if err := recovered("after parsing"); err != nil {
+		return err
 	}
 	if ok, err := p.Verify(id.Cert); !ok || err != nil {
 		return fmt.Errorf("the library's own verification rejects the produced signature: %v, %v", ok, err)
+	}
+	if err := recovered("after one verification"); err != nil {
+		return err
+	}
+	if ok, err := p.Verify(id.Cert); !ok || err != nil {
+		return fmt.Errorf("the library's own verification rejects the produced signature when the parsed object is asked a second time: %v, %v", ok, err)
+	}
+	if err := recovered("after two verifications"); err != nil {
+		return err
 	}
 	if c.AuthCode {
 		a, err := authenticode.ParseAuthenticode(blob)
@@ -371,6 +387,12 @@ func checkCase(c Case) error {
 		}
 		if ok, err := a.Verify(id.Cert, bytes.NewReader(c.Content)); !ok || err != nil {
 			return fmt.Errorf("Authenticode.Verify rejects SignAuthenticode output: %v %v", ok, err)
+		}
+		if ok, err := a.Verify(id.Cert, bytes.NewReader(c.Content)); !ok || err != nil {
+			return fmt.Errorf("Authenticode.Verify rejects SignAuthenticode output when the parsed object is asked a second time: %v %v", ok, err)
+		}
+		if !bytes.Equal(a.Digest, d[:]) {
+			return fmt.Errorf("ParseAuthenticode digest changed by verification: %x, stream digest %x", a.Digest, d)
 		}
 	}
 	return nil
